@@ -337,14 +337,20 @@ theorem substitute_wiring (h m h' : NNet) (c : Nat) (hw : h.wf = true) (hc : c <
     obtain ⟨k, hk⟩ := (mem_filterMap_id _ l).mp hmem
     exact hne (w.fwdIn c hc k l hk).2.1
 
-/-- `substitute` in regular use returns a well-formed circuit (side conditions as for `substitute_sem`) -/
+/-- regular use (`regularB`) is a use of `substitute` in which nothing is removed (`keepsAllB`, Model/SubstSem.lean: designated
+    cell, no connected-but-ignored input pin, every unconnected output driven by a node that stays) -/
+theorem regular_keepsAll (h m h' : NNet) (c : Nat) (hr : regularB h c m = true) (he : substitute h c m = some h') :
+    keepsAllB h c m = true := regularB_keepsAll h c m h' hr he
+
+/-- `substitute`, when nothing is removed, returns a well-formed circuit (side conditions as for `substitute_sem`) -/
 theorem substitute_wf (h m h' : NNet) (c : Nat) (hw : h.wf = true) (mw : m.wf = true) (hc : c < h.net.nodes.size)
     (hio : h.net.io.contains c = false) (hcf : (h.net.node c).isFork = false)
-    (hr : regularB h c m = true) (hok : implOKB m = true) (he : substitute h c m = some h') : h'.wf = true := by
+    (hr : keepsAllB h c m = true) (hok : implOKB m = true) (he : substitute h c m = some h') : h'.wf = true := by
   obtain ⟨sh, dn, map, ct⟩ := substitute_cert h m h' c (WF.of_wf hw) (WF.of_wf mw) hc hio hcf hr hok he
   exact wf_of_WF ct.wf'
 
-/-- **`substitute` preserves the function** (full semantic statement, regular use).
+/-- **`substitute` preserves the function** (full semantic statement; all uses in which nothing is removed, `keepsAllB`:
+    regular use — `regular_keepsAll` —, unconnected input pins, unconnected outputs whose driver stays).
     Vocabulary (Model/SubstSem.lean, Proofs/SubstSem1.lean): `ConsOff nn S an v` — the labelling `v` of the lines of `nn`
     under the node-indexed assignment `an` satisfies the equation (`lineEq`, Model/Net.lean) of every line whose driver
     is not in the set `S` of "holes" (`S = ∅`: `v` is consistent, `consOff_consistent`); `ImplMatches h c m sh anm vm v` —
@@ -352,8 +358,8 @@ theorem substitute_wf (h m h' : NNet) (c : Nat) (hw : h.wf = true) (mw : m.wf = 
     of an input port whose instance pin is unconnected being absent: `cutIns m (deadLine h c m sh)`), every port of `m` is
     assigned the value of the host line at its instance pin (`portVal`: `z` for an unconnected pin and for output ports),
     and output line `k` of `m` carries the value of the host line at output pin `k` of the instance.
-    For every well-formed host `h` and implementation `m`, cell `c` (no port, no fork), in regular use (`regularB`) and
-    under the side conditions `implOKB m` (designated cell no port, ports distinct, no port a flip-flop/latch, driven
+    For every well-formed host `h` and implementation `m`, cell `c` (no port, no fork), when nothing is removed
+    (`keepsAllB`) and under the side conditions `implOKB m` (designated cell no port, ports distinct, no port a flip-flop/latch, driven
     ports that are read inside are forks), with `h' = substitute h c m`:
     * `h'` is well-formed; `node_map` (`map`) is injective, sends the designated cell to `c` and everything else behind the
       host's nodes, keeps the kinds (ports become forks); ports and all other nodes of the host are untouched; the lines
@@ -370,7 +376,7 @@ theorem substitute_wf (h m h' : NNet) (c : Nat) (hw : h.wf = true) (mw : m.wf = 
     unconnected input pins are covered uniformly. -/
 theorem substitute_sem {α : Type _} (h m h' : NNet) (c : Nat) (hw : h.wf = true) (mw : m.wf = true) (hc : c < h.net.nodes.size)
     (hio : h.net.io.contains c = false) (hcf : (h.net.node c).isFork = false)
-    (hr : regularB h c m = true) (hok : implOKB m = true) (he : substitute h c m = some h')
+    (hr : keepsAllB h c m = true) (hok : implOKB m = true) (he : substitute h c m = some h')
     (z : α) (neg : α → α) (prim : String → α → α → α → α → α) :
     ∃ (sh : Shape) (dn : Nat) (map : Array (Option Nat)),
       implShape m = some sh ∧ sh.des = some dn ∧ h'.wf = true ∧
@@ -441,7 +447,7 @@ theorem resolve_ports (lib : Lib) (h h' : NNet) (hw : h.wf = true)
   have r := (resolve_fold lib h.keys h h' he ⟨w.names, w.io⟩ hk).1
   exact ⟨r, by simpa [NNet.ioNames] using congrArg List.length r⟩
 
-/-- **`resolve_tlib_cells` preserves the function** (model `resolveCells`; every substitution along the loop a regular use:
+/-- **`resolve_tlib_cells` preserves the function** (model `resolveCells`; every substitution along the loop removes nothing:
     `resolveOKB`, decidable, evaluated by running the model).  With `cell x` = "`x` is a node of the original circuit whose
     kind is in the library": the result is well-formed, keeps ports, all other nodes and all node keys of the original;
     **(1)** every consistent labelling `v'` of the result is, on the original lines, consistent for the original circuit
@@ -567,7 +573,7 @@ example : (substitute exHost 2 exImpl).map (fun r => (r.net.line 1, r.net.line 2
     inside, inputs with one and with two readers); the result is well-formed, has 5 copied lines, and a consistent
     labelling of it exists (the evaluator's), so direction (1) of `substitute_sem` is not vacuous -/
 example : exHost.wf = true ∧ exImpl.wf = true ∧ exHost.net.io.contains 2 = false ∧ (exHost.net.node 2).isFork = false ∧
-    regularB exHost 2 exImpl = true ∧ implOKB exImpl = true ∧
+    regularB exHost 2 exImpl = true ∧ keepsAllB exHost 2 exImpl = true ∧ implOKB exImpl = true ∧
     (substitute exHost 2 exImpl).map (fun r => (r.wf, r.net.lines.size,
       consistentB r.net false (!·) prim2 (fun j => j == 0 || j == 4) (evalAll r.net false (!·) prim2 (fun j => j == 0 || j == 4)))) =
       some (true, 12, true) := by decide +kernel
@@ -580,7 +586,8 @@ def exHostI : NNet :=
                         ⟨"output", [some 2], []⟩],
              lines := #[⟨0, 0, 1, 0⟩, ⟨1, 0, 2, 0⟩, ⟨1, 1, 3, 0⟩], io := [0, 2, 3] },
     names := #["a", "u", "z", "y"] }
-example : exHostI.wf = true ∧ regularB exHostI 1 exImpl = true ∧ (exHostI.net.node 1).isFork = false ∧
+example : exHostI.wf = true ∧ regularB exHostI 1 exImpl = true ∧ keepsAllB exHostI 1 exImpl = true ∧
+    (exHostI.net.node 1).isFork = false ∧
     (implShape exImpl).map (fun sh => (List.range exImpl.net.lines.size).filter (deadLine exHostI 1 exImpl sh)) = some [2] ∧
     (substitute exHostI 1 exImpl).map (fun r => (r.wf, (r.net.node 6).kind, (r.net.node 6).ins)) =
       some (true, "NAND2", [some 4]) := by decide +kernel
@@ -623,7 +630,27 @@ example : exFill.wf = true ∧
     (substitute exFill 1 { net := { nodes := #[⟨"__fork__", [], []⟩], lines := #[], io := [0] }, names := #["A"] }).map
       (fun r => (r.kindNames, r.net.lines.size)) = some ([("input", "a"), ("DFF", "ff")], 0) := by decide +kernel
 
-/-- hypotheses of `resolve_sem`: every substitution of the example is regular use; the result is consistent under the
+/-- an unconnected output whose driver stays (`keepsAllB` but not `regularB`): a flip-flop cell `input(D,C) output(Q,QN)` whose
+    outputs are the two pins of one `DFF` primitive, instantiated with `QN` open — nothing is removed, the host cell becomes
+    the `DFF`, `substitute_wf` / `substitute_sem` apply.  (With `exHostU`, where the `OR2` of `exImpl` dangles and is
+    removed, `keepsAllB` is false: not covered.) -/
+def exImplFF : NNet :=
+  { net := { nodes := #[⟨"__fork__", [], [some 0]⟩, ⟨"__fork__", [], [some 1]⟩, ⟨"__fork__", [some 2], []⟩,
+                        ⟨"__fork__", [some 3], []⟩, ⟨"DFF", [some 0, some 1], [some 2, some 3]⟩],
+             lines := #[⟨0, 0, 4, 0⟩, ⟨1, 0, 4, 1⟩, ⟨4, 0, 2, 0⟩, ⟨4, 1, 3, 0⟩], io := [0, 1, 2, 3] },
+    names := #["D", "C", "Q", "QN", "Q"] }
+def exHostFF : NNet :=
+  { net := { nodes := #[⟨"input", [], [some 0]⟩, ⟨"input", [], [some 1]⟩, ⟨"DFFX1", [some 0, some 1], [some 2]⟩,
+                        ⟨"output", [some 2], []⟩],
+             lines := #[⟨0, 0, 2, 0⟩, ⟨1, 0, 2, 1⟩, ⟨2, 0, 3, 0⟩], io := [0, 1, 3] },
+    names := #["d", "clk", "u", "q"] }
+example : exImplFF.wf = true ∧ exHostFF.wf = true ∧ regularB exHostFF 2 exImplFF = false ∧ keepsAllB exHostFF 2 exImplFF = true ∧
+    implOKB exImplFF = true ∧ exHostFF.net.io.contains 2 = false ∧ (exHostFF.net.node 2).isFork = false ∧
+    keepsAllB exHostU 2 exImpl = false ∧
+    (substitute exHostFF 2 exImplFF).map (fun r => (r.wf, (r.net.node 2).kind, (r.net.node 2).outs, r.sNames)) =
+      some (true, "DFF", [some 2], ["d", "clk", "q", "u"]) := by decide +kernel
+
+/-- hypotheses of `resolve_sem`: every substitution of the example removes nothing (`resolveOKB`); the result is consistent under the
     evaluator's labelling (direction (1) is not vacuous) -/
 example : exHost.wf = true ∧ resolveOKB [("AOCELL", exImpl)] exHost.keys exHost = true ∧
     (resolveCells [("AOCELL", exImpl)] exHost).map (fun r => (r.wf,
